@@ -76,6 +76,35 @@ CLAIMED = {
     note="Trusted: as C09; solve_triangular is an oracle parameter. Matrix Mahalanobis identity and from_parameters layout not yet theorems.",
     technique="Coq proof about source-regenerated definitions + numpy oracle",
     ref="DESIGN.md section 6, C19"),
+ "C01": dict(
+    text="Machine-checked theorems: for any factor L with L L^T = S the whitened quadratic form equals r^T S^-1 r and (abstract additive log) sum log diag L = log det S / 2; "
+         "on the quasiseparable path of the model these hold for every n/order over any real-closed field when the pivots are positive; the isfinite guard never returns NaN/+inf. "
+         "Model tied by tolerance correspondence (factor diagonal, whitened residual, log probability) for the direct, quasiseparable and Kalman solvers over kernels x noise "
+         "(scalar, per-point, banded, dense) x means x sizes from 1 with coincident points, eager and jit, condition().log_probability and numpyro; numpy slogdet/solve oracle; non-PD / non-finite inputs give -inf.",
+    note="Trusted: Coq kernel, model Model/GP.v + Model/Dense.v (stand-ins for LAPACK Cholesky / triangular solve, an oracle), harness, numpy oracle. Kernel matrices and means enter as data. "
+         "That a failed factorisation yields NaN (hence -inf) is XLA behaviour: observed, not proved. float32 not exercised in the quick tier.",
+    technique="Coq proof (Gaussian algebra + Cholesky/solve theorems composed) + tolerance correspondence of the pipeline model",
+    ref="DESIGN.md section 6, C01"),
+ "C02": dict(
+    text="Machine-checked theorems (any field): fast-path mean y - N alpha = K alpha + m; every mean path of the model (training inputs, alternative kernel, new inputs; include_mean both ways); "
+         "conditional covariance through a factor equals K** + N* - K*^T S^-1 K*; the quasiseparable dense fallback of the model returns exactly that (with the predictive noise). "
+         "Model tied by tolerance correspondence over the option matrix {test set} x include_mean x predictive kernel x predictive noise x solver, predict() variants, numpy textbook oracle.",
+    note="Trusted: as C01. The QSM branch of QuasisepSolver.condition (M + N* - gram(L^-1 M)) is covered by correspondence + oracle; its theorem needs C05 matmul_sound (pending).",
+    technique="Coq proof (Gaussian conditional algebra on the pipeline model) + tolerance correspondence over the option matrix",
+    ref="DESIGN.md section 6, C02"),
+ "C03": dict(
+    text="Machine-checked: any two lower-triangular factors of the same matrix give the same whitened quadratic form and the same squared diagonal product, so the value reported does not depend on the "
+         "factorisation algorithm. Pairwise comparison of the implementation's dense / quasiseparable / Kalman solvers (log probability, normalisation, covariance, variance, samples for a key, triangular product/solve) "
+         "and correspondence of the Kalman recursion's Gallina model with the implementation and with the Cholesky diagonal (s_k = c_k^2).",
+    note="Trusted: as C01. kalman_is_cholesky is checked at model level by correspondence, not yet proved; uniqueness of the positive-diagonal factor (solver-independent samples) observed, theorem pending.",
+    technique="Coq proof (factor-independence of the Gaussian quantities) + correspondence of the Kalman model",
+    ref="DESIGN.md section 6, C03"),
+ "C12": dict(
+    text="Machine-checked (any field, every N, order, number of flattened sample indices): entry (idx, i) of the model's draw is mean_i + sum_j L_ij z[j, idx]; triangular product and solve are mutually inverse; "
+         "L L^T is the covariance (C07). Correspondence with z drawn by jax.random.normal(key, (N,)+shape) for prior and conditioned processes, both solvers, shapes None/()/(3,)/(2,3); determinism; z recovered from unrelated models.",
+    note="PARTIAL: that jax.random.normal is standard normal and depends only on (key, shape, dtype) is an oracle assumption. Trusted: as C01.",
+    technique="Coq proof (matmul denotation + solve inverse) + tolerance correspondence with the PRNG as oracle",
+    ref="DESIGN.md section 6, C12"),
 }
 NOT_YET = {}
 
